@@ -1,5 +1,6 @@
 import HdVerif.Proofs.FrameAccess
 import HdVerif.Proofs.Offsets
+import HdVerif.Proofs.OffsetsTie
 /-! # C05  Every way of fetching stored frames returns the same pixels
 
 Property theorems only (helper lemmas live in `Proofs/`).  All statements are about the
@@ -436,5 +437,63 @@ example : singleSkel.cached [10, 20, 30] 0 (-1) true = .error .index :=
   cached_frame_rejected singleSkel (Or.inl rfl) [10,20,30] 0 (-1) true (by simp)
 example : getBot [0, 12, 18] [[0xFF,0xD8,1,2],[3,4],[0xFF,0xD8,5,6]] 2 = .ok [0, 22] :=
   stored_or_rebuilt_table [[[0xFF,0xD8,1,2],[3,4]],[[0xFF,0xD8,5,6]]] [0,12,18] (by simp [WellFormed]) (Or.inl (by simp [MarkerDelimited, isStart])) (Or.inl (by simp))
+
+/-! ### The encapsulated bookkeeping is the source's (tie T, target T11d)
+
+The theorems above (`bot_*`, `read_frame_fragments`, `stored_or_rebuilt_table`) speak about the hand-written loops of
+`Model/Offsets.lean`.  The four statements below tie those loops to `io.py` as it is now: each side condition, offset,
+increment and choice in them is the expression regenerated from the current source (`Generated/T11d.lean`). -/
+
+/-- every iteration of the `_build_bot` loop of the model refuses, records and advances exactly as the regenerated
+    expressions of the source say (`_START_MARKERS`, `length % 2`, `length == 0`, `frame_position - initial_position`,
+    4 + 4 + 2 + `fp.seek(length - 2, 1)`) -/
+theorem bot_loop_is_the_source_loop (f : Frag) (fs : List Frag) (pos : Nat) (acc : List Nat × List Nat) :
+    botLoop (f :: fs) pos acc =
+      (match botStepGen f pos acc with
+       | .ok (p, a) => botLoop fs p a
+       | .error e => .error e) := botLoop_cons f fs pos acc
+
+/-- the table `_build_bot` returns is chosen by the regenerated test (frame offsets first, then fragment offsets,
+    otherwise ValueError) -/
+theorem bot_choice_is_the_source_choice (fs : List Frag) (n : Nat) :
+    buildBot fs n =
+      (match botLoop fs 0 ([], []) with
+       | .error e => .error e
+       | .ok (frag, frm) =>
+         match botChoice frm.length frag.length n with
+         | .ok 0 => .ok frm
+         | .ok _ => .ok frag
+         | .error e => .error e) := buildBot_choice fs n
+
+/-- the fragment walk of `read_frame_raw` stops and advances by the regenerated expressions (`n == stop_at` tested
+    before the fragment is taken, `n += 4 + 4 + length`) -/
+theorem read_loop_is_the_source_loop (f : Frag) (fs : List Frag) (n stopAt : Int) (acc : List Frag) :
+    readLoop (f :: fs) n stopAt acc =
+      if n = stopAt then acc
+      else match readAdvance n f.length with
+        | .ok n' => readLoop fs n' stopAt (acc ++ [f])
+        | .error _ => acc := readLoop_cons f fs n stopAt acc
+
+/-- `stop_at` is the regenerated `offset_table[index + 1] - frame_offset`, `-1` for the last frame, and the count starts
+    at the regenerated value -/
+theorem read_stop_is_the_source_stop (fs : List Frag) (table : List Nat) (i off : Nat) (h : table[i]? = some off) :
+    readFrameRaw fs table i =
+      (match readNextEntry i, readStart with
+       | .ok j, .ok n0 =>
+         let stopAt : Except ErrKind Int := match table[j.toNat]? with
+           | some nxt => readStopAt nxt off
+           | none => readStopAtLast
+         match stopAt with
+         | .ok s => (do
+             let rest ← seekFrag fs 0 off
+             let data := (readLoop rest n0 s []).flatten
+             if data.length = 0 then .error .other else .ok data)
+         | .error e => .error e
+       | _, _ => .error .other) := readFrameRaw_stop fs table i off h
+
+/-- non-vacuity: a JPEG-marked two-fragment stream through the regenerated step -/
+example : botStepGen [0xFF, 0xD8, 1, 2] 0 ([], []) = .ok (12, ([0], [0])) := by decide
+example : botStepGen [1, 2, 3] 0 ([], []) = .error .other := by decide
+
 
 end HdVerif.C05
